@@ -260,8 +260,9 @@ func compile(patterns []string, mode Mode) (*regexp.Regexp, error) {
 							pat = pat[w:]
 							j := strings.Index(pat, string(r)+"]")
 							if j == -1 {
+								// not a class: "[" and r are members like the rest
 								w = 0
-								break Bracket
+								break
 							}
 							w = j + 2
 							b.WriteString(pat[:w])
